@@ -151,6 +151,13 @@ rep0_ctx_send(void *arg, nni_aio *aio)
 	nni_msg_header_clear(msg);
 
 	nni_mtx_lock(&s->lk);
+	if (ctx->saio != NULL) {
+		// The previous reply of this context is still waiting for
+		// its pipe; a second one cannot be queued behind it.
+		nni_mtx_unlock(&s->lk);
+		nni_aio_finish_error(aio, NNG_ESTATE);
+		return;
+	}
 	len  = ctx->btrace_len;
 	p_id = ctx->pipe_id;
 
